@@ -96,6 +96,11 @@ func (f changeFinder) changed() {
 func (f changeFinder) commentsFor(n *value) (before, after []*ast.Comment) {
 	pos, end := n.Pos(), n.End()
 	for _, cg := range n.Comments {
+		if len(cg.List) == 0 {
+			// Emptied by an earlier change that rewrote the code
+			// around it; Pos and End are undefined for it.
+			continue
+		}
 		if cg.End() <= pos {
 			before = append(before, cg.List...)
 		}
